@@ -104,6 +104,25 @@ func CheckAPI(seq []exact.Member, bits bool) (class, detail string, facts map[st
 	if !sort.StringsAreSorted(ns) || !sort.SliceIsSorted(vs, func(i, j int) bool { return vs[i] < vs[j] }) {
 		return "unsorted-view", fmt.Sprintf("[%s]: Names %v Values %v", seqString(seq), ns, vs), nil
 	}
+	// the views are results: a caller that edits the map it was given (drops a member, adds
+	// one) leaves the enumeration and its two views as they were
+	before := fmt.Sprint(ns, vs, len(e.NameMap()))
+	for n := range nm {
+		delete(nm, n)
+		break
+	}
+	nm["zzedited"] = 123456
+	if !bits {
+		vm := e.ValueMap()
+		for v := range vm {
+			delete(vm, v)
+			break
+		}
+		vm[654321] = "zzedited2"
+	}
+	if after := fmt.Sprint(e.Names(), e.Values(), len(e.NameMap())); after != before || e.IsDefined("zzedited") || e.IsDefined("zzedited2") {
+		return "view-is-not-a-copy", fmt.Sprintf("[%s]: after editing the maps returned by NameMap and ValueMap the enumeration reads %s, before %s", seqString(seq), after, before), nil
+	}
 	return "", "", nil
 }
 
